@@ -1,7 +1,7 @@
 #!/usr/bin/env python3-vt
 """usage: eq_try.py Cxx [checks...]  - run checks (default: all 20) against every stored equivalents/Cxx-N/patch.diff (behaviour-preserving
 refactorings): every check must stay silent (exit 0); prints alarms (exit 1) and analysis errors (exit 2).
-VERIF_SNAPSHOT=<copy of /verif> runs the checkers of that copy (so that /verif can be edited meanwhile)."""
+EQ_ROOT=<dir> takes the patches from <dir>/Cxx/_eq/patchN.diff instead. VERIF_SNAPSHOT=<copy of /verif> runs the checkers of that copy (so that /verif can be edited meanwhile)."""
 import sys, glob, os
 VERIF = os.environ.get("VERIF_SNAPSHOT", "/verif")
 sys.path.insert(0, VERIF)
@@ -9,15 +9,16 @@ from concurrent.futures import ThreadPoolExecutor
 from pgverif import selftest
 prop = sys.argv[1]
 checks = sys.argv[2:] or [f"C{i:02d}" for i in range(1, 21)]
-patches = sorted(glob.glob(f"{VERIF}/equivalents/{prop}-[0-9]/patch.diff"))
+patches = sorted(glob.glob(f"{os.environ['EQ_ROOT']}/{prop}/_eq/patch[0-9].diff")) if os.environ.get("EQ_ROOT") else \
+    sorted(glob.glob(f"{VERIF}/equivalents/{prop}-[0-9]/patch.diff"))
 jobs = [(p, c) for p in patches for c in checks]
 def run(j):
     p, c = j
-    return p, c, selftest._one(c, "/repo", {"name": os.path.basename(os.path.dirname(p)), "patch": p, "expect": "silent"}, "/var/tmp")
+    return p, c, selftest._one(c, "/repo", {"name": os.path.basename(p) if os.environ.get("EQ_ROOT") else os.path.basename(os.path.dirname(p)), "patch": p, "expect": "silent"}, "/var/tmp")
 with ThreadPoolExecutor(max_workers=5) as ex:
     res = list(ex.map(run, jobs))
 for p in patches:
     alarms = {c: r.get("reported") for pp, c, r in res if pp == p and r["status"] == "FAILED" and r.get("reported")}
     errs = {c: (r.get("detail") or "")[:160] for pp, c, r in res if pp == p and r["status"] == "FAILED" and not r.get("reported")}
     skipped = [c for pp, c, r in res if pp == p and r["status"].startswith("skipped")]
-    print(os.path.basename(os.path.dirname(p)), "ALARMS:" if alarms else "silent", alarms or "", "| ERR:" if errs else "", errs or "", "| NOT-APPLIED" if skipped else "")
+    print(os.path.basename(p) if os.environ.get('EQ_ROOT') else os.path.basename(os.path.dirname(p)), "ALARMS:" if alarms else "silent", alarms or "", "| ERR:" if errs else "", errs or "", "| NOT-APPLIED" if skipped else "")
